@@ -95,7 +95,8 @@ def build_model():
 def grep_forbidden():
     """No Admitted/admit/Axiom/Parameter/... anywhere in the development (comments excluded)."""
     bad = []
-    for root, _, files in os.walk(COQ):
+    for root, dirs, files in os.walk(COQ):
+        dirs[:] = [d for d in dirs if not d.startswith('scratch_')]    # agents' scratch directories are not part of the development
         for fn in files:
             if not fn.endswith('.v'):
                 continue
